@@ -78,7 +78,10 @@ def tables(ctx, P):
         for i, t in b.calls(r'Serialize::to_writer$'):
             arms = [vs for adt, vs in arm_context(b, i, dom) if adt == 'KeyVersion']
             if arms and set(min(arms, key=len)) <= {'V2', 'V3'} and 'PublicParams' in t['f'].get('selfty', ''):
-                bad.append(site(b, i))
+                pp_arms = [vs for adt, vs in arm_context(b, i, dom) if adt == 'PublicParams']
+                # v2/v3 keys are RSA keys: the RSA arm (or an undistinguished arm) must hash bodies only
+                if not pp_arms or 'RSA' in min(pp_arms, key=len):
+                    bad.append(site(b, i))
         ctx.check(P + ':S13-2:v3-no-mpi-length-prefix', 'R-table',
                   'v2/v3 fingerprint hashes the MPI bodies of n and e, not the length-prefixed serialisation of the public parameters',
                   not bad, function=b.path, site=bad[0] if bad else None,
